@@ -56,9 +56,9 @@ class Probe:
         self.uid += 1
         self.log.append(('send', self.uid, name, delay))
         if delay is None:
-            send(name, uid=self.uid)
+            send(name, uid=self.uid, tag='t%d' % self.uid)
         else:
-            send(name, uid=self.uid, delay=delay)
+            send(name, uid=self.uid, tag='t%d' % self.uid, delay=delay)
 
     def notify(self, notify, name):
         self.uid += 1
